@@ -218,7 +218,7 @@ func exactOf(g *rt.G, t Xf) (*exact.Shape, bool) {
 			x, y := (p[0]-t.Tx)/t.Scale, (p[1]-t.Ty)/t.Scale
 			lim := float64(exact.MaxCoord)
 			if g.K == "line" && len(ps) == 2 || g.K == "point" {
-				lim = 1 << 21 // segment / point cases use orientation predicates only (products stay below 2^44)
+				lim = 1 << 27 // segment / point cases use orientation predicates only (int64 products stay below 2^58)
 			}
 			if x != float64(int64(x)) || y != float64(int64(y)) || x > lim || x < -lim || y > lim || y < -lim {
 				return nil, false
